@@ -677,6 +677,46 @@ func runConfig(res *core.Result, pool *idPool, r *rand.Rand, full bool) {
 		res.Case(fmt.Sprintf("outbound:%s:isolate=%v:friend=%v", strings.SplitN(l.name, "node", 2)[0], rp.isolate, rp.friends[l.dst]), nontrivial)
 		ms.Drain(vmesh.FIFO, 50)
 		drainTun()
+		// A prohibited destination stays prohibited whatever authentic control messages arrive about it: error
+		// pings from that router and from a third one, then other connections to the same destination (other
+		// ports, other protocol) at once.
+		if l.raw == nil && !allowed && l.src == V.ID.IP && l.routable {
+			var D, T *vmesh.Node
+			for _, n := range ms.Nodes[1:] {
+				if n.ID.IP == l.dst {
+					D = n
+				} else if T == nil {
+					T = n
+				}
+			}
+			if D != nil && T != nil {
+				for _, snd := range []*vmesh.Node{T, D} {
+					ep := snd.Inst.RouterV.ErrorPing
+					_ = ep.SendUnreachable(V.ID.IP, D.ID.IP)
+					_ = ep.SendGeneric(V.ID.IP, "x")
+					_ = ep.SendAccessDenied(V.ID.IP, D.ID.IP, oproto, 80)
+					_ = ep.SendRejected(V.ID.IP, D.ID.IP, oproto, 80)
+					ms.Drain(vmesh.FIFO, 100)
+				}
+				drainTun()
+				for k := 0; k < 3; k++ {
+					fromV = fromV[:0]
+					pkt2 := ipv6Packet(V.ID.IP, D.ID.IP, []uint8{oproto, 6, 17}[k], uint16(31000+sent+k), uint16(2000+k), core.RandBytes(r, 16))
+					if perr := V.Inst.RouterV.VerifHandleTunPacket(mkLocal(pkt2)); perr != nil {
+						res.Violate("handler-panic", fmt.Sprintf("local packet after control pings: %v [%s]", perr, cfgDesc), wit(map[string]any{"packet": l.name}))
+						return
+					}
+					if len(fromV) > 0 {
+						res.Violate("forbidden-local-packet-entered-mesh:after-control-pings", desc+": prohibited at first, but after authentic error pings about that destination (unreachable, generic, access-denied, rejected; from it and from a third router) another connection to it left the router towards the mesh ["+cfgDesc+"]",
+							wit(map[string]any{"packet": l.name, "variant": "after-control-pings"}))
+						return
+					}
+					ms.Drain(vmesh.FIFO, 50)
+					drainTun()
+				}
+				res.Count("prohibited_destinations_retried_after_control_pings", 1)
+			}
+		}
 	}
 	res.Count("outbound_packets", int64(sent))
 	res.Count("configs_full_paths", 1)
